@@ -135,6 +135,7 @@ fn js(s: &str) -> String {
     o
 }
 
+fn deep() -> bool { std::env::var("VERIF_TIER").map(|t| t == "thorough").unwrap_or(false) } // thorough tier: wider bounds
 fn main() {
     std::panic::set_hook(Box::new(|_| {}));
     let mut found = 0usize;
@@ -188,7 +189,7 @@ fn main() {
                     fcount += 1;
                     functions += 1;
                     for (ai, (aname, arch, always)) in archs.iter().enumerate() {
-                        if !always && (fcount + ai) % 10 != 0 { continue; }
+                        if !always && (fcount + ai) % (if deep() { 2 } else { 10 }) != 0 { continue; }
                         let sp = arch.stack_pointer();
                         let w = sp.bits();
                         if w == 0 || w > 64 { report!("completes", aname, Model { blocks: vec![], edges: BTreeSet::new() }, "stack_pointer().bits()", w, "1..=64"); continue; }
